@@ -14,6 +14,8 @@ def pick_args(op, n, rng):
         return {"ix": [rng.randrange(-n, n) for _ in range(k)]}
     if op == "reorder":
         p = list(range(n)); rng.shuffle(p)
+        if rng.random() < 0.4:            # the same permutation written with negative (from-the-end) indices
+            p = [x - n if rng.random() < 0.5 else x for x in p]
         return {"ix": p}
     if op == "delete":
         form = rng.choice(["int", "list", "slice", "mask", "neg"])
@@ -55,6 +57,48 @@ def can_sort(state, a):
     return lab["name"]["on"]
 
 
+def genotype_step(ctx, cur, pre, kind, presence, rng, out, hid, step):
+    """genotyping protocols as operations on the variant axis: the genotyped matrix is the selection of the unmasked
+    variants (all variants for the plain protocol), every label array and any reported grouping must describe it"""
+    from pybrops.breed.prot.gt.DenseUnphasedGenotyping import DenseUnphasedGenotyping
+    from pybrops.breed.prot.gt.DenseMaskedUnphasedGenotyping import DenseMaskedUnphasedGenotyping
+    from pybrops.breed.prot.gt.DenseMaskedPhasedGenotyping import DenseMaskedPhasedGenotyping
+    nv = len(pre["ax"]["vrnt"])
+    mask_on = pre["lab"]["vrnt"]["mask"]["on"]
+    which = rng.choice(["plain", "masked-unphased", "masked-phased"])
+    invert = rng.random() < 0.5
+    if which == "plain" or not mask_on:
+        ix = list(range(nv)); prot = DenseUnphasedGenotyping(); name = "DenseUnphasedGenotyping.genotype"; okind = "TV"
+        if which != "plain":
+            prot = (DenseMaskedUnphasedGenotyping if which == "masked-unphased" else DenseMaskedPhasedGenotyping)(invert=invert)
+            name = type(prot).__name__ + ".genotype[mask absent]"; okind = "TV" if which == "masked-unphased" else "PTV"
+    else:
+        mk = [bool(x) for x in pre["lab"]["vrnt"]["mask"]["v"]]
+        ix = [k for k in range(nv) if mk[k] != invert]
+        prot = (DenseMaskedUnphasedGenotyping if which == "masked-unphased" else DenseMaskedPhasedGenotyping)(invert=invert)
+        name = type(prot).__name__ + ".genotype"; okind = "TV" if which == "masked-unphased" else "PTV"
+    if not ix:
+        return
+    work = copy.deepcopy(cur)
+    c = {"qual": name, "id": len(out) + 1, "hist": hid, "step": step, "cls": "DensePhasedGenotypeMatrix", "kind": okind, "presence": presence,
+         "axis": "vrnt", "op": "select", "realop": "genotype:" + which, "form": "specific", "mut": False, "ix": ix, "del": [], "pos": [], "blk": [],
+         "raw": False, "objrepr": "invert=%s" % invert, "pre": pre, "err": None, "lexsortok": True, "tab": lm.TAB}
+    try:
+        with time_limit(20):
+            res = prot.genotype(work)
+        if okind == "TV":
+            # cells of the phased matrix are 64*phase + 8*taxon + variant; their sum over the two phases (modulo the int8
+            # range) is 64 + 2*(8*taxon + variant): re-coded so that the projection can decode the entity ids
+            m = np.asarray(res.mat).astype(np.int64) % 256
+            res = copy.copy(res)
+            res.mat = ((m - 64) // 2).astype("int8")
+        c["post"] = lm.project(res, okind)
+        c["opnd"] = lm.project(work, kind)
+    except Exception as e:
+        c["err"] = "%s: %s" % (type(e).__name__, str(e)[:200]); c["post"] = pre; c["opnd"] = pre
+    out.append(c)
+
+
 def run_history(ctx, clsname, presence, rng, nsteps, out, hid):
     cls, kind = lm.get_class(clsname)
     axes = lm.KINDS[kind][0]
@@ -75,6 +119,9 @@ def run_history(ctx, clsname, presence, rng, nsteps, out, hid):
         n = len(pre["ax"][a])
         if n == 0 or -1 in pre["ax"][a] or not pre["ok"]["cells"]:
             return
+        if clsname == "DensePhasedGenotypeMatrix" and rng.random() < 0.2:
+            genotype_step(ctx, cur, pre, kind, presence, rng, out, hid, step)
+            continue
         if n > 7 and op in ("insert", "adjoin", "concat"):
             op = "delete"
         if op in ("sort", "group", "lexsort") and not can_sort(pre, a):
